@@ -13,6 +13,8 @@ import (
 	"sort"
 	"strings"
 	"testing"
+
+	"github.com/wmnsk/go-pfcp/ie"
 )
 
 type c07Init struct {
@@ -238,6 +240,12 @@ func c07Alphabet(s *sessSys) []sessReq {
 		}
 		for _, x := range s.m.live(c) {
 			add("del", sessReq{sReq: sReq{Kind: kDel, Conn: c}, Sess: x.Idx})
+			if c == 0 && s.in.cfg.UEIPAlloc && !s.in.cfg.P4 && x.pdr(8) == nil && x.pdr(1) != nil {
+				// a modification adds an uplink rule and asks the UP to choose its tunnel endpoint (BESS only: UP4 keys uplink
+				// terminations by UE address and application, under which a second plain uplink rule is the first one)
+				p1 := x.pdr(1).sPDR
+				add("mod-create-choose-pdr", sessReq{sReq: sReq{Kind: kMod, Conn: c, CreatePDR: []sPDR{{ID: 8, Prec: 90, Src: ie.SrcInterfaceAccess, FTEID: &sFTEID{Choose: true}, UEIP: p1.UEIP, Decap: true, FAR: 1, QERs: p1.QERs}}}, Sess: x.Idx})
+			}
 			if c == 0 && x.pdr(1) != nil && x.pdr(1).ChoseTEID {
 				// the PDR that owns the UP-chosen TEID is removed (accepted), or removed by a request that is then refused
 				add("mod-remove-choose-pdr", sessReq{sReq: sReq{Kind: kMod, Conn: c, RemovePDR: []uint16{1}}, Sess: x.Idx})
@@ -252,6 +260,10 @@ func c07Oracle(c *stepCtx) {
 	s := c.sys
 	if c.pframe != "" {
 		s.violation("c07:panic:"+c.pframe, c.pmsg)
+		return
+	}
+	if l := vLeakedLock(s.in.u); l != "" {
+		s.violation("c07:lock-held-after-request:"+l, fmt.Sprintf("%s is still held after %s returned: the next request that needs it blocks the receive loop", l, c.req.Label))
 		return
 	}
 	if c.req.Kind == kEst && c.accepted && c.newSess != nil {
@@ -276,6 +288,16 @@ func c07Oracle(c *stepCtx) {
 					if q.ChoseTEID && q.TEID == p.TEID && !(o == c.newSess && q.ID == p.ID) {
 						s.violation("c07:teid-reused", fmt.Sprintf("TEID %#x chosen for two live PDRs", p.TEID))
 					}
+				}
+			}
+		}
+	}
+	if c.req.Kind == kMod && c.accepted {
+		for _, p := range c.req.CreatePDR {
+			if p.FTEID != nil && p.FTEID.Choose {
+				if q := c.sess.pdr(p.ID); q != nil && q.TEID == 0 {
+					// (reported without ending the history here: what follows such a rule is explored as well)
+					s.res.finding("c07:teid-zero-in-modification", fmt.Sprintf("a Session Modification whose Create PDR %d asks the UP to choose the F-TEID is accepted; no TEID is chosen or reported and the rule is programmed with TEID 0", p.ID), s.ex.replayCase())
 				}
 			}
 		}
